@@ -3,7 +3,7 @@ C16 (broken pipe wrapper), plus the flush-layer rule R12.3 shared with C12/C15."
 import re
 
 from engine import rule, AnchorLost
-from model import Super, PathSens, strace, carriers, switches_on_carriers, fn_of, trace, is_place, site, const_value
+from model import strace_deep, Super, PathSens, strace, carriers, switches_on_carriers, fn_of, trace, is_place, site, const_value
 import common
 import tables
 
@@ -250,71 +250,119 @@ def wrapper_impl(facts):
     return m, wty, used, imps
 
 
-@rule("R16.1", 2, "every method of the stdout wrapper returns the broken-pipe check of the same inner method with its own arguments", ["C16", "C15"])
-def r16_1(ctx):
+def _check_like(binc, callee):
+    """A function over an io::Result that looks at the error's kind: takes a Result<_, io::Error> as its first
+    argument, returns the same type, and compares an ErrorKind somewhere in its (inlined) body."""
+    if callee.nargs < 1 or not callee.local_ty(1).startswith("std::result::Result<") or "std::io::Error" not in callee.local_ty(1):
+        return False
+    if callee.local_ty(0) != callee.local_ty(1):
+        return False
+    for _, _, t in Super(binc, callee, depth=2).calls():
+        f = fn_of(t) or {}
+        if f.get("trait") == "std::cmp::PartialEq" and "ErrorKind" in f.get("self_ty", ""):
+            return True
+    return False
+
+
+def _wrapper_methods(ctx):
+    """[(method name, body, sup, inner calls, check callee ids)] for the io::Write methods of the stdout
+    wrapper, each analysed on its own supergraph (helpers and closures inlined)."""
     m, wty, used, imps = wrapper_impl(ctx.facts)
     binc = ctx.bin
+    out = []
+    for imp in used:
+        for it in imp["items"]:
+            b = binc.by_id.get(it["def"])
+            if not b:
+                continue
+            sup = Super(binc, b, depth=3)
+            inner = []
+            for n, cb, t in sup.calls():
+                f = fn_of(t) or {}
+                if f.get("trait") != "std::io::Write" or not t["args"]:
+                    continue
+                tr = strace(sup, n, t["args"][0])
+                if tr.origin and tr.origin[0] == "arg" and tr.origin[1] == 1 and not tr.origin_node[0] and (tr.has("field") or tr.has("agg_field")):
+                    inner.append((n, cb, t))
+            # the value returned by the method: walk from the return place through non-checking helpers
+            # (e.g. a generic `guarded(|w| ..)`) to the first call of a check-like function
+            checks = []
+            ret_tr = None
+            rets = b.return_blocks()
+            cur, hops = (((), rets[0]) if rets else None), 0
+            while cur is not None and hops < 4:
+                hops += 1
+                tr = strace(sup, cur, {"k": "copy", "p": {"l": 0, "pr": []}})
+                if not (tr.origin and tr.origin[0] == "call" and all(s_[0] in ("use", "enter_caller") for s_ in tr.steps)):
+                    break
+                cf = fn_of(tr.origin[2]) or {}
+                cnode = (tr.origin_node[0], tr.origin[1])
+                callee = binc.by_id.get(cf.get("resolved") or cf.get("def"))
+                if callee is None or not cf.get("local"):
+                    break
+                if _check_like(binc, callee):
+                    checks.append(callee.id)
+                    ret_tr = tr
+                    break
+                inl = [m_ for lab, m_ in sup.edges(cnode) if lab == "call"]
+                crets = callee.return_blocks()
+                if not inl or not crets:
+                    break
+                cur = (inl[0][0], crets[0])
+            out.append((it["name"], b, sup, inner, checks, ret_tr, imp))
+    return m, wty, used, out
+
+
+@rule("R16.1", 2, "every method of the stdout wrapper returns the broken-pipe check of the same inner method with its own arguments", ["C16", "C15"])
+def r16_1(ctx):
+    m, wty, used, methods = _wrapper_methods(ctx)
     ctx.ob("wrapper-in-sink-type", len(used) >= 1, site(m), f"sink type handed to the translator: {wty}")
-    checks = set()
     for imp in used:
         names = [it["name"] for it in imp["items"]]
         for req in ("write", "flush"):
             if req not in names:
                 ctx.ob(f"{req}:present", False, imp["self_ty"], "required io::Write method missing")
-        for it in imp["items"]:
-            b = binc.by_id.get(it["def"])
-            if not b:
-                continue
-            name = it["name"]
-            inner = [(bb, t) for bb, t in b.calls() if (fn_of(t) or {}).get("trait") == "std::io::Write"]
-            same = [(bb, t) for bb, t in inner if fn_of(t)["name"] == name]
-            ok_inner = len(inner) == 1 and len(same) == 1
-            ctx.ob(f"{name}:inner-same-method", ok_inner, site(b),
-                   f"calls inner {name} exactly once" if ok_inner else f"inner writer calls: {[fn_of(t)['name'] for _, t in inner]}")
-            if not same:
-                continue
-            ibb, it_ = same[0]
-            # receiver = field of self; other args = own params, unchanged
-            tr = trace(b, it_["args"][0])
-            recv_ok = bool(tr.origin and tr.origin[0] == "arg" and tr.origin[1] == 1 and tr.has("field"))
-            args_ok = True
-            for i, a in enumerate(it_["args"][1:], start=2):
-                tra = trace(b, a)
-                if not (tra.origin and tra.origin[0] == "arg" and tra.origin[1] == i and all(s[0] in ("use", "ref", "deref") for s in tra.steps)):
-                    args_ok = False
-            ctx.ob(f"{name}:args-pass-through", recv_ok and args_ok, site(b, ibb),
-                   "inner call receives self's writer and the method's own arguments unchanged" if recv_ok and args_ok else "arguments are altered before reaching the inner writer")
-            # result goes through the check into the return place
-            res = it_["dest"]["l"]
-
-            def pred(t, res=res, b=b):
-                f = fn_of(t) or {}
-                if not f.get("local") or not t["args"]:
-                    return False
-                tr2 = trace(b, t["args"][0])
-                return bool(tr2.origin and tr2.origin[0] == "call" and tr2.origin[2] is it_ and all(s[0] == "use" for s in tr2.steps))
-
-            ok, det = _returns_call(b, pred)
-            ctx.ob(f"{name}:checked-return", ok, site(b),
-                   "returns check(inner result)" if ok else f"the inner writer's result is returned without the broken-pipe check ({det})")
-            for bb2, t2 in b.calls():
-                f2 = fn_of(t2) or {}
-                if f2.get("local") and t2["dest"]["l"] == 0:
-                    checks.add(f2.get("resolved") or f2["def"])
+    checks = set()
+    plain = ("use", "ref", "deref", "enter_caller", "agg_field", "field")
+    for name, b, sup, inner, chk, ret_tr, imp in methods:
+        same = [(n, cb, t) for n, cb, t in inner if fn_of(t)["name"] == name]
+        ok_inner = len(inner) == 1 and len(same) == 1
+        ctx.ob(f"{name}:inner-same-method", ok_inner, site(b),
+               f"calls inner {name} exactly once" if ok_inner else f"inner writer calls: {[fn_of(t)['name'] for _, _, t in inner]}")
+        if not same:
+            continue
+        inode, icb, it_ = same[0]
+        args_ok = True
+        for i, a in enumerate(it_["args"][1:], start=2):
+            tra = strace(sup, inode, a)
+            if not (tra.origin and tra.origin[0] == "arg" and tra.origin[1] == i and not tra.origin_node[0] and all(s_[0] in plain for s_ in tra.steps)):
+                args_ok = False
+        ctx.ob(f"{name}:args-pass-through", args_ok, sup.site(inode),
+               "inner call receives self's writer and the method's own arguments unchanged" if args_ok else "arguments are altered before reaching the inner writer")
+        # the method returns check(inner result)
+        ok = False
+        det = "the inner writer's result is returned without the broken-pipe check"
+        if ret_tr is not None and ret_tr.origin and ret_tr.origin[0] == "call" and chk:
+            cnode = (ret_tr.origin_node[0], ret_tr.origin[1])
+            ct = ret_tr.origin[2]
+            if ct["args"]:
+                a0 = strace_deep(sup, cnode, ct["args"][0])
+                if a0.origin and a0.origin[0] == "call" and a0.origin[2] is it_ and all(s_[0] in ("use", "enter_caller", "enter_callee") for s_ in a0.steps):
+                    ok = True
+                    det = "returns check(inner result)"
+                else:
+                    det = "the checked value is not the inner call's result"
+        ctx.ob(f"{name}:checked-return", ok, site(b), det)
+        checks |= set(chk)
     ctx.ob("single-check-function", len(checks) == 1, wty, f"check function(s): {sorted(checks)}")
 
 
 def _check_fn(ctx):
-    m, wty, used, imps = wrapper_impl(ctx.facts)
+    m, wty, used, methods = _wrapper_methods(ctx)
     binc = ctx.bin
     checks = set()
-    for imp in used:
-        for it in imp["items"]:
-            b = binc.by_id.get(it["def"])
-            for bb2, t2 in (b.calls() if b else []):
-                f2 = fn_of(t2) or {}
-                if f2.get("local") and t2["dest"]["l"] == 0:
-                    checks.add(f2.get("resolved") or f2["def"])
+    for name, b, sup, inner, chk, ret_tr, imp in methods:
+        checks |= set(chk)
     ctx.need(len(checks) >= 1, "no broken-pipe check function is applied in the wrapper")
     return [binc.by_id[c] for c in sorted(checks) if c in binc.by_id]
 
